@@ -280,7 +280,7 @@ class Str1(ls_sp_base_imm8):
 class Adr(ThumbInstruction):
     rd = Operand("rd", LowArmRegister, write=True)
     label = Operand("label", str)
-    syntax = Syntax(["adr", rd, ",", label])
+    syntax = Syntax(["adr", " ", rd, ",", label])
 
     def relocations(self):
         return [Lit8Relocation(self.label)]
@@ -495,7 +495,7 @@ class regreg_base(ThumbInstruction):
 def make_regreg(mnemonic, opcode):
     rdn = Operand("rdn", LowArmRegister, write=True, read=True)
     rm = Operand("rm", LowArmRegister, read=True)
-    syntax = Syntax([mnemonic, rdn, ",", rm])
+    syntax = Syntax([mnemonic, " ", rdn, ",", rm])
     members = {"syntax": syntax, "rdn": rdn, "rm": rm, "opcode": opcode}
     return type(mnemonic + "_ins", (regreg_base,), members)
 
@@ -516,7 +516,7 @@ class Cmp2(ThumbInstruction):
     opcode = 5  # 00101
     rn = Operand("rn", LowArmRegister, read=True)
     imm = Operand("imm", int)
-    syntax = Syntax(["cmp", rn, ",", imm])
+    syntax = Syntax(["cmp", " ", rn, ",", imm])
 
     def encode(self):
         tokens = self.get_tokens()
@@ -613,7 +613,7 @@ class cond_base_ins(ThumbInstruction):
 
 def make_cond_branch(mnemonic, cond):
     target = Operand("target", str)
-    syntax = Syntax([mnemonic, target])
+    syntax = Syntax([mnemonic, " ", target])
     members = {"syntax": syntax, "target": target, "cond": cond}
     return type(mnemonic + "_ins", (cond_base_ins,), members)
 
@@ -643,7 +643,7 @@ class cond_base_ins_long(LongThumbInstruction):
 
 def make_long_cond_branch(mnemonic, cond):
     target = Operand("target", str)
-    syntax = Syntax([mnemonic, target])
+    syntax = Syntax([mnemonic, " ", target])
     members = {"syntax": syntax, "target": target, "cond": cond}
     return type(mnemonic + "_ins", (cond_base_ins_long,), members)
 
@@ -758,7 +758,7 @@ class Bkpt(ThumbInstruction):
 
     opcode = 0b10111110
     imm = Operand("imm", int)
-    syntax = Syntax(["bkpt", imm])
+    syntax = Syntax(["bkpt", " ", imm])
 
     def encode(self):
         tokens = self.get_tokens()
